@@ -15,6 +15,9 @@
   (or abort, `Err.sdo`).  What the EEPROM / object dictionary say is the `Device` description.
 
   Unchecked Rust arithmetic goes through `arith` (`Mode.checked`: overflow ⇒ panic, `Mode.wrapping`: wraps).
+  PDO bit lengths are accumulated in `u64` and the byte length of a sync manager is converted to the `u16` of the
+  length registers with `u16::try_from(..)?` (`Err.intConv`); an FMMU shared by several sync managers is extended
+  with `checked_add` (fix of c08/pdo-bit-length-u16-overflow; before it the sums were `u16`).
   Import-free apart from Basic: the driver `drv_c08` links against this file.
 -/
 import EcModel.Basic
@@ -34,6 +37,9 @@ inductive Err where
   | notFoundFmmu
   /-- `Error::PdiTooLong { max_length, desired_length }`. -/
   | pdiTooLong (max desired : Nat)
+  /-- `Error::IntegerTypeConversion`: the byte length of a sync manager (`u16::try_from(bits.div_ceil(8))?`) or of
+      an FMMU shared by several sync managers (`checked_add`) does not fit the `u16` length register. -/
+  | intConv
   deriving DecidableEq, Repr
 
 abbrev Out (α : Type) := Outcome Err α
@@ -55,10 +61,11 @@ def arith (m : Mode) (what : String) (exact bound : Nat) : Out Nat :=
 def U16 : Nat := 65536
 def U32 : Nat := 4294967296
 def USIZE : Nat := 18446744073709551616
+def U64 : Nat := 18446744073709551616
 
-def add16 (m : Mode) (a b : Nat) : Out Nat := arith m "attempt to add with overflow" (a + b) U16
-def mul16 (m : Mode) (a b : Nat) : Out Nat := arith m "attempt to multiply with overflow" (a * b) U16
 def add32 (m : Mode) (a b : Nat) : Out Nat := arith m "attempt to add with overflow" (a + b) U32
+def add64 (m : Mode) (a b : Nat) : Out Nat := arith m "attempt to add with overflow" (a + b) U64
+def mul64 (m : Mode) (a b : Nat) : Out Nat := arith m "attempt to multiply with overflow" (a * b) U64
 
 /-- `a - b` in an unsigned type with `bound` values. -/
 def subWrap (m : Mode) (bound a b : Nat) : Out Nat :=
@@ -72,13 +79,18 @@ def subWrap (m : Mode) (bound a b : Nat) : Out Nat :=
 /-- `PdiOffset::increment` (`increment_inner(0, bytes)`): `start_address + u32::from(inc_bytes)`. -/
 def increment (m : Mode) (off bytes : Nat) : Out Nat := add32 m off bytes
 
-/-- `(bits + 7) / 8` in `u16` — the expression used for the SM length, inside `increment_byte_aligned`
-    and in the `trace!` arguments (which are evaluated in builds without a logger). -/
-def lenBytes (m : Mode) (bits : Nat) : Out Nat := bind (add16 m bits 7) fun s => .ok (s / 8)
+/-- `uN::div_ceil(8)` as core implements it (`d = self / 8; if self % 8 > 0 { d + 1 } else { d }`): no
+    intermediate can exceed the operand, so there is nothing to overflow in either build mode. -/
+def divCeil8 (bits : Nat) : Nat := bits / 8 + (if bits % 8 > 0 then 1 else 0)
 
-/-- `PdiOffset::increment_byte_aligned`. -/
-def incrementByteAligned (m : Mode) (off bits : Nat) : Out Nat :=
-  bind (lenBytes m bits) fun inc => increment m off inc
+/-- `u16::try_from(bit_len.div_ceil(8))?` with `bit_len : u64` — the byte length written to the sync manager
+    (`configure_pdos_coe`, `configure_pdos_eeprom`). The same in both build modes. -/
+def lenBytes (bits : Nat) : Out Nat :=
+  if divCeil8 bits < U16 then .ok (divCeil8 bits) else .err .intConv
+
+/-- `PdiOffset::increment_byte_aligned(bits: u16)`: `bits.div_ceil(8)`, then `increment_inner`. (No longer called
+    by the configuration code, which advances by the byte length it programmed; kept by the crate and its tests.) -/
+def incrementByteAligned (m : Mode) (off bits : Nat) : Out Nat := increment m off (divCeil8 bits)
 
 /-! ## Descriptions: what EEPROM and object dictionary say about a SubDevice -/
 
@@ -235,39 +247,45 @@ def oversamplingOf (cfg : List (Nat × Nat)) (pdo : Nat) : Nat :=
   | some p => p.2
   | none => 1
 
-/-- inner loop of `configure_pdos_coe`: `pdo_bit_len += u16::from(mapping_bit_len)`. -/
+/-- inner loop of `configure_pdos_coe`: `pdo_bit_len += u64::from(mapping_bit_len)`. -/
 def sumMappings (m : Mode) : Nat → List Nat → Out Nat
   | acc, [] => .ok acc
-  | acc, b :: rest => bind (add16 m acc b) fun acc' => sumMappings m acc' rest
+  | acc, b :: rest => bind (add64 m acc b) fun acc' => sumMappings m acc' rest
 
-/-- middle loop of `configure_pdos_coe`: per assigned PDO `pdo_bit_len * oversampling`, `sm_bit_len += ..`. -/
+/-- middle loop of `configure_pdos_coe`: per assigned PDO `pdo_bit_len * u64::from(oversampling)`,
+    `sm_bit_len += ..` (all `u64`). -/
 def coeSmBitLen (m : Mode) (os : List (Nat × Nat)) : Nat → List CoePdo → Out Nat
   | acc, [] => .ok acc
   | acc, p :: rest =>
     bind (sumMappings m 0 p.mappings) fun pl =>
-    bind (mul16 m pl (oversamplingOf os p.index)) fun pl' =>
-    bind (add16 m acc pl') fun acc' => coeSmBitLen m os acc' rest
+    bind (mul64 m pl (oversamplingOf os p.index)) fun pl' =>
+    bind (add64 m acc pl') fun acc' => coeSmBitLen m os acc' rest
 
-/-- `pdos.iter().filter(sm == idx).map(bit_len * oversampling).sum()` of `configure_pdos_eeprom` (u16). -/
+/-- `pdos.iter().filter(sm == idx).map(u64::from(bit_len) * u64::from(oversampling)).sum::<u64>()` of
+    `configure_pdos_eeprom` (`Sum for u64` is a fold with `+`: overflow-checked in checked builds). -/
 def eepromSmBitLen (m : Mode) (os : List (Nat × Nat)) (smIdx : Nat) : Nat → List Pdo → Out Nat
   | acc, [] => .ok acc
   | acc, p :: rest =>
     if p.sm = smIdx then
-      bind (mul16 m p.bitLen (oversamplingOf os p.index)) fun l =>
-      bind (add16 m acc l) fun acc' => eepromSmBitLen m os smIdx acc' rest
+      bind (mul64 m p.bitLen (oversamplingOf os p.index)) fun l =>
+      bind (add64 m acc l) fun acc' => eepromSmBitLen m os smIdx acc' rest
     else eepromSmBitLen m os smIdx acc rest
 
+/-- `fmmu_config.length_bytes.checked_add(sm_config.length_bytes).ok_or(Error::IntegerTypeConversion)?`. -/
+def extendLen (cur add : Nat) : Out Nat := if cur + add < U16 then .ok (cur + add) else .err .intConv
+
 /-- `write_fmmu_config`: read the FMMU back, extend it if already enabled, else program it afresh; write;
-    advance the offset. Returns registers and new offset. -/
-def writeFmmuConfig (m : Mode) (r : Regs) (smBitLen fmmuIdx off smType : Nat) (cfg : SmReg) : Out (Regs × Nat) :=
+    advance the offset by the byte length of the sync manager (`global_offset.increment(sm_config.length_bytes)`).
+    Returns registers and new offset. -/
+def writeFmmuConfig (m : Mode) (r : Regs) (fmmuIdx off smType : Nat) (cfg : SmReg) : Out (Regs × Nat) :=
   let cur := r.fmmu fmmuIdx
   bind (if cur.enable then
-          bind (add16 m cur.length cfg.len) fun l => .ok { cur with length := l }
+          bind (extendLen cur.length cfg.len) fun l => .ok { cur with length := l }
         else
           .ok { logicalStart := off, length := cfg.len, startBit := 0, endBit := 7,
                 physStart := cfg.start, physBit := 0,
                 readEn := smType == 4, writeEn := smType == 3, enable := true }) fun f =>
-  bind (incrementByteAligned m off smBitLen) fun off' => .ok (r.setFmmu fmmuIdx f, off')
+  bind (increment m off cfg.len) fun off' => .ok (r.setFmmu fmmuIdx f, off')
 
 /-- `fmmu_usage.iter().position(|u| *u == wanted)`. -/
 def position (t : Nat) : List Nat → Option Nat
@@ -284,13 +302,13 @@ def coeLoop (m : Mode) (d : Device) (dir : Dir) : List (Nat × SmDesc) → Regs 
       | none => .err .sdo
       | some pdos =>
         bind (coeSmBitLen m d.oversampling 0 pdos) fun bits =>
-        bind (lenBytes m bits) fun lb =>
+        bind (lenBytes bits) fun lb =>
         let w := writeSmConfig r i sm lb
         if bits > 0 then
           match position dir.fmmuType d.fmmuUsage with
           | none => .err .notFoundFmmu
           | some fi =>
-            bind (writeFmmuConfig m w.1 bits fi off dir.smType w.2) fun p => coeLoop m d dir rest p.1 p.2
+            bind (writeFmmuConfig m w.1 fi off dir.smType w.2) fun p => coeLoop m d dir rest p.1 p.2
         else coeLoop m d dir rest w.1 off
 
 /-- FMMU choice of `configure_pdos_eeprom`: `find(|f| f.sync_manager == idx).map(|f| f.sync_manager).unwrap_or(idx)`. -/
@@ -307,9 +325,9 @@ def eepromLoop (m : Mode) (d : Device) (dir : Dir) (pdos : List Pdo) :
     if sm.usageType ≠ dir.smType then eepromLoop m d dir pdos rest r off
     else
       bind (eepromSmBitLen m d.oversampling i 0 pdos) fun bits =>
-      bind (lenBytes m bits) fun lb =>
+      bind (lenBytes bits) fun lb =>
       let w := writeSmConfig r i sm lb
-      bind (writeFmmuConfig m w.1 bits (eepromFmmuIndex d.fmmuEx i) off dir.smType w.2) fun p =>
+      bind (writeFmmuConfig m w.1 (eepromFmmuIndex d.fmmuEx i) off dir.smType w.2) fun p =>
         eepromLoop m d dir pdos rest p.1 p.2
 
 /-- What the MainDevice keeps and what the device holds for one SubDevice. -/
